@@ -40,6 +40,7 @@ type sched struct {
 	schedTrace   []string
 	crashOwner   *thread
 	deferSpawn   bool
+	forkOrder    bool
 	taskCnt      int
 	crashBase    int
 }
@@ -104,10 +105,20 @@ func (i *interpreter) otherTaskReps() []*thread {
 // task (one request) run sequentially: while any of them is runnable the task keeps the
 // processor; scheduling choices exist only between tasks.
 func (i *interpreter) pickNext() *thread {
+	var same []*thread
 	for _, t := range i.threads {
 		if t != i.cur && t.task == i.cur.task && t.runnable() {
-			return t
+			same = append(same, t)
 		}
+	}
+	if len(same) > 0 {
+		if i.forkOrder && len(same) > 1 {
+			// every order in which the goroutines of one request may be run
+			k := i.decide("goroutine-order", len(same), func(int) *Term { return nil })
+			i.trace = append(i.trace, fmt.Sprintf("order:T%d", same[k].id))
+			return same[k]
+		}
+		return same[0]
 	}
 	cands := i.otherTaskReps()
 	if len(cands) == 0 {
